@@ -67,9 +67,44 @@ class C05(SpecValueCheck):
         p = super().profile(tier, shard)
         p.kinds = list(PER_KINDS) + ['INTEGER'] * 3 + ['IA5String', 'BIT STRING', 'OCTET STRING']
         p.real_wc = False
+        p.very_wide_additions = True
         p.root2 = True
         p.choice_tags_ascending_rate = 85
         return p
+
+    def directed(self, tier, shard):
+        """boundaries of X.691's length / index forms that random modules reach too rarely: the number of extension
+        additions around 64 (normally small length, 11.9), ENUMERATED / CHOICE extension indices around 64
+        (normally small number, 11.6), ranges around one and two octets"""
+        from ..asn import Ty, Member, Module, Spec, Rng
+        m = Module('M', 'AUTOMATIC')
+        items = []
+        for n in (1, 2, 7, 8, 9, 63, 64, 65, 66) + ((127, 128) if tier == 'thorough' else ()):
+            adds = [Member('m%d' % i, Ty('BOOLEAN'), optional=True) for i in range(n)]
+            name = 'S%d' % n
+            m.types.append((name, Ty('SEQUENCE', root=[Member('a', Ty('BOOLEAN'))], ext=adds)))
+            vals = [{'a': True, 'm%d' % (n - 1): True}, {'a': False, 'm0': False},
+                    dict([('a', True)] + [('m%d' % i, i % 2 == 0) for i in range(n)])]
+            items.append((name, vals))
+        names = ['e%d' % i for i in range(70)]
+        m.types.append(('E', Ty('ENUMERATED', enum_root=[('r0', 0, False)],
+                                enum_ext=[(nm, i + 1, False) for i, nm in enumerate(names)])))
+        items.append(('E', ['r0', 'e0', 'e62', 'e63', 'e64', 'e65', 'e69']))
+        m.types.append(('C', Ty('CHOICE', root=[Member('r0', Ty('BOOLEAN'))],
+                                ext=[Member(nm, Ty('BOOLEAN')) for nm in names])))
+        items.append(('C', [('r0', True), ('e0', True), ('e62', False), ('e63', True), ('e64', True), ('e65', False)]))
+        for i, (lo, hi) in enumerate([(0, 254), (0, 255), (0, 256), (1, 256), (0, 65535), (0, 65536), (-1, 65534),
+                                      (0, 2 ** 32 - 1), (0, 2 ** 32), (-2 ** 63, 2 ** 63 - 1), (0, 2 ** 64)]):
+            name = 'I%d' % i
+            m.types.append((name, Ty('INTEGER', rng=Rng(lo, hi))))
+            items.append((name, sorted(set([lo, hi, lo + 1, hi - 1, (lo + hi) // 2, min(hi, lo + 255),
+                                            min(hi, lo + 256), min(hi, lo + 65536)]))))
+        spec = Spec([m])
+        if shard['ne']:
+            for it in items:
+                if it[0] == 'E':
+                    items[items.index(it)] = ('E', [0, 1, 63, 64, 65, 66, 70])
+        return [(spec, [('M', name, vals)]) for name, vals in items]
 
     def valcfg(self, tier, shard):
         return values.ValCfg(numeric_enums=shard['ne'], big=shard.get('big', False), nan=True, neg_zero=False,
